@@ -1,7 +1,7 @@
 CONSTANTS
   N = 1
   Classes = {"cur", "dep", "exc", "ref", "unk"}
-  Uses = {"none", "alone", "plus", "and", "or", "with", "paren", "twotags", "dotlicense", "toml", "dep5"}
+  Uses = {"none", "alone", "plus", "and", "or", "with", "paren", "twotags", "absorb", "dotlicense", "toml", "dep5"}
   Provs = {"absent", "txt", "md", "noext", "subdir", "plusname", "withdotlicense"}
   SampleN = 0
 SPECIFICATION Spec
